@@ -29,11 +29,16 @@ def main(argv=None):
         rc = 1 if ctx.violations else 0
     except MachineryError as e:
         print(f"MACHINERY-FAILURE property={a.pid}: {e}", flush=True)
-        rc = 2
+        # violations already reported stand (the machinery may fail *because* the code under test is broken)
+        rc = 1 if ctx.violations else 2
+        if ctx.violations:
+            ctx.write_evidence()
     except Exception:
         traceback.print_exc()
         print(f"MACHINERY-FAILURE property={a.pid}: unexpected exception in harness", flush=True)
-        rc = 2
+        rc = 1 if ctx.violations else 2
+        if ctx.violations:
+            ctx.write_evidence()
     finally:
         ctx.cleanup()
     print(f"[{a.pid}] tier={a.tier} seed={seed} violations={len(ctx.violations)} "
